@@ -109,7 +109,7 @@ def cstep {α} (s : CState α) : CLbl → Option (CState α)
       some { s with phase := .stopping }
     else none
   | .threadExit =>
-    if s.phase = .stopping ∧ s.queue.isEmpty then some { s with phase := .purge } else none
+    if s.phase = .stopping then some { s with phase := .purge } else none
   | .purgeGet src =>
     if s.phase = .purge then
       match takeFirst src s.queue with
